@@ -13,6 +13,7 @@ import PG.Model.CacheRead
 import PG.Model.Pinned
 import PG.Model.Meta
 import PG.Model.Sha1
+import PG.Spec.Format
 open PG
 
 /-! ### rendering -/
@@ -355,6 +356,10 @@ def step (st : St) (line : String) : St × String :=
     match unhex c, unhexOpt m with
     | some c, some m => (st, hx (printThrowable ⟨c, m⟩))
     | _, _ => bad
+  | ["FMT", h] =>
+    match unhex h with
+    | some bs => (st, Format.check bs)
+    | none => bad
   | ["UUID", h] =>
     match unhex h with
     | some bs => (st, hexOfBytes (mappingUuid bs))
